@@ -3,7 +3,8 @@ CONSTANTS
   ReaderCap = 2
   WriterCap = 2
   MaxWire = 4
-  Defects = {"ReaderSendBlocks"}
+  MaxResp = 4
+  Defects = {"ReaderSendBlocks", "WriteBlocksAfterWriteLoopExit", "ReadLoopOutlivesStreamLoop"}
 INVARIANT TypeOK
 PROPERTIES C10_Returns C17_Exit NoLoopLeft
 CHECK_DEADLOCK FALSE
